@@ -79,6 +79,13 @@ func drain(ch chan *logline.LogLine) []string {
 // execute runs the real LineReader over the script.  problems are deviations
 // from the call protocol the harness relies on (not property violations).
 func execute(size int, script []string) (c lrCase, delivered []string, problems []string) {
+	defer func() {
+		// a slice expression out of range inside the reader must not take the
+		// whole run down: it is a failing input like any other
+		if r := recover(); r != nil {
+			problems = append(problems, fmt.Sprintf("panic: %v", r))
+		}
+	}()
 	total := 0
 	for _, s := range script {
 		total += len(s)
@@ -205,20 +212,31 @@ func main() {
 		replay(a.Replay)
 		return
 	}
-	out := vlib.NewOut(a, "From V Require Import Corr.Run_C15.", "c15case", 1200)
+	out := vlib.NewOut(a, "From V Require Import Corr.Run_C15.", "c15case", 450)
 	rng := vlib.NewRand(a.Seed)
 
+	perClass := map[string]int{}
+	violate := func(class, what string, c any) {
+		// the first (shortest) failing inputs of each class are enough
+		if perClass[class]++; perClass[class] <= 10 {
+			out.Violate(class, what, c)
+		}
+	}
 	run := func(size int, script []string, toCoq bool, tag string) {
 		c, got, probs := execute(size, script)
 		stream := strings.Join(script, "")
 		want := frame(stream)
 		if !sameLines(want, got) {
-			out.Violate(classify(stream, want, got),
+			violate(classify(stream, want, got),
 				fmt.Sprintf("stream %q read as %q with buffer size %d delivered %q, the property requires %q", stream, script, size, got, want),
 				map[string]any{"size": size, "script": vlib.Qs(script)})
 		}
 		for _, p := range probs {
-			out.Violate("reader-protocol", fmt.Sprintf("stream %q as %q size %d: %s", stream, script, size, p),
+			class := "reader-protocol"
+			if strings.HasPrefix(p, "panic:") {
+				class = "reader-panic"
+			}
+			violate(class, fmt.Sprintf("stream %q as %q size %d: %s", stream, script, size, p),
 				map[string]any{"size": size, "script": vlib.Qs(script)})
 		}
 		if toCoq {
@@ -232,7 +250,7 @@ func main() {
 	// ---- long random streams, random chunking (including empty reads), random sizes ----
 	// (generated first, emitted interleaved with the exhaustive cases so that the
 	// Coq shards, which are cut by case count, carry similar loads)
-	nr, maxLen := 160, 300
+	nr, maxLen := 100, 200
 	if a.Thorough() {
 		nr, maxLen = 4000, 600
 	}
@@ -272,11 +290,15 @@ func main() {
 			script = append(script, string(b[p:p+l]))
 			p += l
 		}
-		size := 1 + rng.Intn(8)
-		switch rng.Intn(4) {
-		case 0:
-			size = 1 + rng.Intn(100)
-		case 1:
+		var size int
+		switch x := rng.Intn(100); {
+		case x < 20:
+			size = 1 + rng.Intn(4)
+		case x < 50:
+			size = 5 + rng.Intn(28)
+		case x < 75:
+			size = 33 + rng.Intn(224)
+		default:
 			size = 4096
 		}
 		randoms = append(randoms, rcase{size, script})
@@ -286,11 +308,11 @@ func main() {
 	// The Go oracle judges all of them; the model replays all up to fullCoq and
 	// a sample of the longer ones.
 	maxGo, fullCoq := 5, 3
-	sample := map[int]int{4: 25, 5: 1} // percent of the cases of that length replayed by the model
-	every := 50                         // one random case per this many model cases
+	sample := map[int]int{4: 8, 5: 1} // 1/300ths of the cases of that length replayed by the model
+	every := 40                         // one random case per this many model cases
 	if a.Thorough() {
 		maxGo, fullCoq = 6, 5
-		sample = map[int]int{6: 1}
+		sample = map[int]int{6: 3}
 		every = 55
 	}
 	swept, sinceRandom := 0, 0
@@ -304,7 +326,7 @@ func main() {
 			}
 			for mask := 0; mask < nmask; mask++ {
 				for size := 1; size <= 4; size++ {
-					toCoq := n <= fullCoq || rng.Intn(100) < sample[n]
+					toCoq := n <= fullCoq || rng.Intn(300) < sample[n]
 					run(size, chunking(s, mask), toCoq, fmt.Sprintf("exhaustive/len%d", n))
 					swept++
 					if toCoq {
@@ -329,10 +351,11 @@ func main() {
 		run(rc.size, rc.script, true, "random")
 	}
 	out.Extra["exhaustive_cases_checked_by_oracle"] = swept
+	out.Extra["oracle_violations_by_class"] = perClass
 	out.Extra["exhaustive_alphabet"] = "\\n \\r a 0xC3 0xA9"
 	out.Extra["exhaustive_max_len_oracle"] = maxGo
 	out.Extra["exhaustive_max_len_model_all"] = fullCoq
-	out.Extra["exhaustive_model_sample_percent_by_len"] = fmt.Sprint(sample)
+	out.Extra["exhaustive_model_sample_per_300_by_len"] = fmt.Sprint(sample)
 
 	out.Flush("every byte string over {\\n,\\r,a,0xC3,0xA9} up to the stated length x every split into non-empty reads x buffer sizes 1-4, plus long random streams with random reads (some empty) and buffer sizes 1-4096; non-trivial when the stream contains a newline and at least two reads happen", true)
 }
